@@ -523,14 +523,24 @@ def _run_models(ctx, cases):
         ll[k].append(r)
     pw = [[] for _ in cases]
     nwrap = 0
-    for k, r in zip(where, ctx.run_model("entry_p32", args)):
+    # the program model is run on every fork-isolated case and on every case up to 8x8 bins (its cost grows faster
+    # than that of the list-based models); the others are counted
+    psel = [j for j, k in enumerate(where) if cases[k].get("fork") or cases[k].get("intmax")
+            or len(cases[k]["p"]) * len(cases[k]["q"]) <= 64]
+    ctx.count("as-written program not run (more than 8x8 bins; variants)", len(args) - len(psel))
+    pres = dict(zip(psel, ctx.run_model("entry_p32", [args[j] for j in psel])))
+    for j, k in enumerate(where):
+        if j not in pres:
+            pw[k].append(None)
+            continue
+        r = pres[j]
         # (no_wrap status dist F): the FastEMD program (Model/EmdP.v) executed as written for int (wrap32 after every int
         # operation) and the decidable hypothesis no_wrap_b of C10_no_wrap_below_bound evaluated on the exact path
         if isinstance(r, list) and len(r) == 4 and not r[0]:
             nwrap += 1
         pw[k].append(r)
     _run_models.pw = pw
-    ctx.count("as-written program runs (variants)", len(args))
+    ctx.count("as-written program runs (variants)", len(psel))
     ctx.count("as-written program runs with no_wrap_b FALSE (some int operation leaves int32)", nwrap)
     ctx.count("line-level model runs (variants)", len(args))
     ctx.count("line-level model runs with the companion flag SET", nflag)
